@@ -4,7 +4,7 @@
 (*   async_sender  (queue, one gather-write at a time, Receive Maximum     *)
 (*                  quota, resend with stable sort)                         *)
 (*   replies       (waiters keyed by (code, id), fast replies)             *)
-(*   publish_send_op / subscribe_op phases, DUP, per-operation cancel      *)
+(*   publish_send_op / subscribe_op / unsubscribe_op phases, DUP, cancel   *)
 (*   packet identifiers (least free id)                                    *)
 (*   connection epochs: fault, reconnect, the read path and the write path *)
 (*   both reporting one reconnect (try_again)                              *)
@@ -58,6 +58,11 @@ QosOf(op) == IF KindOf[op] = "pub0" THEN 0 ELSE IF KindOf[op] = "pub1" THEN 1 EL
 IsPub(op) == KindOf[op] \in {"pub0", "pub1", "pub2"}
 MsgOf(op) == IF IsPub(op) THEN "m" \o ToString(op) ELSE ""
 DigOf(op) == "d" \o ToString(op)
+IsSub(op) == KindOf[op] \in {"sub", "unsub"}             \* subscribe_op / unsubscribe_op: same phases, own packet and reply codes
+ReqPk(op) == IF IsPub(op) THEN "PUBLISH" ELSE IF KindOf[op] = "unsub" THEN "UNSUBSCRIBE" ELSE "SUBSCRIBE"
+AckOf(pk) == IF pk = "SUBSCRIBE" THEN "SUBACK" ELSE "UNSUBACK"
+SubPks == {"SUBSCRIBE", "UNSUBSCRIBE"}
+SubAcks2 == {"SUBACK", "UNSUBACK"}
 
 CInit == [
     phase   |-> [i \in Ops |-> "new"],   \* new | sent (write pending/queued) | wait (reply awaited) | rel | waitcomp | done
@@ -97,7 +102,7 @@ PktEvent(conn, w, r) ==
     [e |-> "c_pkt", c |-> conn, w |-> w, type |-> r.pk, pid |-> r.pid,
      qos |-> IF r.pk = "PUBLISH" THEN QosOf(r.op) ELSE 0, dup |-> r.dup, rc |-> 0,
      msg |-> IF r.pk = "PUBLISH" THEN MsgOf(r.op) ELSE "",
-     dig |-> IF r.pk \in {"PUBLISH", "SUBSCRIBE"} THEN DigOf(r.op) ELSE "p0", len |-> 10]
+     dig |-> IF r.pk \in ({"PUBLISH"} \cup SubPks) THEN DigOf(r.op) ELSE "p0", len |-> 10]
 
 RECURSIVE EmitPkts(_, _, _, _)
 EmitPkts(cl, conn, w, b) ==
@@ -125,7 +130,7 @@ Send(cl, conn, r) == DoWrite([cl EXCEPT !.wq = Append(@, r)], conn)
 
 DoneEvent(op, ec, rc, pdig) ==
     [e |-> "done", op |-> op, kind |-> KindOf[op], ec |-> ec, rc |-> rc,
-     codes |-> IF KindOf[op] = "sub" /\ ec = "ok" THEN <<rc>> ELSE IF KindOf[op] = "sub" THEN <<255>> ELSE << >>,
+     codes |-> IF IsSub(op) /\ ec = "ok" THEN <<rc>> ELSE IF IsSub(op) THEN <<255>> ELSE << >>,
      pdig |-> pdig, inl |-> 0, msg |-> "", dig |-> ""]
 
 Complete(cl, conn, op, ec, rc, pdig) ==
@@ -148,7 +153,7 @@ WaitReply(cl, code, op) ==
 
 \* the continuation that runs when a reply is handed to the operation
 OnReply(cl, conn, op, code, rc, pdig) ==
-    IF code \in {"PUBACK", "SUBACK"} THEN Complete(cl, conn, op, "ok", rc, pdig)
+    IF code \in ({"PUBACK"} \cup SubAcks2) THEN Complete(cl, conn, op, "ok", rc, pdig)
     ELSE IF code = "PUBREC" THEN
          IF rc >= 128 THEN Complete(cl, conn, op, "ok", rc, "p0")
          ELSE Send([cl EXCEPT !.phase[op] = "rel"], conn,
@@ -162,7 +167,7 @@ AfterWrite(cl, conn, r) ==
     ELSE IF r.pk = "PUBLISH" /\ QosOf(r.op) = 1 THEN WaitReply([cl EXCEPT !.phase[r.op] = "wait"], "PUBACK", r.op)
     ELSE IF r.pk = "PUBLISH" THEN WaitReply([cl EXCEPT !.phase[r.op] = "wait"], "PUBREC", r.op)
     ELSE IF r.pk = "PUBREL" THEN WaitReply([cl EXCEPT !.phase[r.op] = "waitcomp"], "PUBCOMP", r.op)
-    ELSE WaitReply([cl EXCEPT !.phase[r.op] = "wait"], "SUBACK", r.op)
+    ELSE WaitReply([cl EXCEPT !.phase[r.op] = "wait"], AckOf(r.pk), r.op)
 
 RECURSIVE AfterWriteAll(_, _, _)
 AfterWriteAll(cl, conn, b) ==
@@ -186,7 +191,7 @@ RECURSIVE RequeueWaiters(_, _, _)
 RequeueWaiters(cl, conn, ws) ==
     IF ws = << >> THEN cl
     ELSE LET x == Head(ws)
-             pk == IF x.code = "PUBCOMP" THEN "PUBREL" ELSE IF x.code = "SUBACK" THEN "SUBSCRIBE" ELSE "PUBLISH"
+             pk == IF x.code = "PUBCOMP" THEN "PUBREL" ELSE IF x.code = "SUBACK" THEN "SUBSCRIBE" ELSE IF x.code = "UNSUBACK" THEN "UNSUBSCRIBE" ELSE "PUBLISH"
          IN RequeueWaiters(Requeue(cl, conn, x.op, pk, TRUE), conn, Tail(ws))
 
 RECURSIVE RequeueQueued(_, _, _)
@@ -243,7 +248,7 @@ Commit(cl, step) ==
 
 CallEvent(op) ==
     [e |-> "call", op |-> op, kind |-> KindOf[op], dig |-> DigOf(op), qos |-> QosOf(op),
-     nt |-> IF KindOf[op] = "sub" THEN 1 ELSE 0, msg |-> MsgOf(op), len |-> 10, retain |-> 0, alias |-> -1,
+     nt |-> IF IsSub(op) THEN 1 ELSE 0, msg |-> MsgOf(op), len |-> 10, retain |-> 0, alias |-> -1,
      wild |-> 0, shared |-> 0, subid |-> 0, h_rm |-> 65535, h_mqos |-> 2, h_ra |-> 1, h_maxpkt |-> 0, h_tam |-> 0,
      h_wa |-> 1, h_sha |-> 1, h_sia |-> 1]
 
@@ -255,7 +260,7 @@ AppCall(op) ==
            c1 == Emit(c, CallEvent(op))
            c2 == [c1 EXCEPT !.pid[op] = pid, !.used = IF pid = 0 THEN @ ELSE @ \cup {pid},
                             !.serial[op] = ser, !.lastSerial = IF IsPub(op) THEN ser ELSE @, !.phase[op] = "sent"]
-           c3 == Send(c2, Cn, Req(op, IF IsPub(op) THEN "PUBLISH" ELSE "SUBSCRIBE", pid,
+           c3 == Send(c2, Cn, Req(op, ReqPk(op), pid,
                                         IsPub(op) /\ QosOf(op) > 0, FALSE, ser, 0))
            c4 == Emit(c3, [e |-> "ret", op |-> op])
        IN Commit(c4, [op |-> "call", id |-> op])
@@ -270,7 +275,7 @@ AppCancel(op) ==
 \* the broker fully receives the write in flight
 RecvEvent(k, conn, r) ==
     [e |-> "b_recv", c |-> conn, k |-> k, type |-> r.pk, ok |-> 1, pid |-> r.pid, rc |-> 0,
-     dig |-> IF r.pk \in {"PUBLISH", "SUBSCRIBE"} THEN DigOf(r.op) ELSE "p0", len |-> 10, err |-> "",
+     dig |-> IF r.pk \in ({"PUBLISH"} \cup SubPks) THEN DigOf(r.op) ELSE "p0", len |-> 10, err |-> "",
      qos |-> IF r.pk = "PUBLISH" THEN QosOf(r.op) ELSE 0, dup |-> r.dup, retain |-> 0,
      msg |-> IF r.pk = "PUBLISH" THEN MsgOf(r.op) ELSE "", alias |-> -1,
      nt |-> 1, wild |-> 0, shared |-> 0, subid |-> 0]
@@ -285,7 +290,7 @@ Deliver ==
                        ack == IF r.pk = "PUBLISH" /\ QosOf(r.op) = 1 THEN "PUBACK"
                               ELSE IF r.pk = "PUBLISH" /\ QosOf(r.op) = 2 THEN "PUBREC"
                               ELSE IF r.pk = "PUBREL" THEN "PUBCOMP"
-                              ELSE IF r.pk = "SUBSCRIBE" THEN "SUBACK" ELSE ""
+                              ELSE IF r.pk \in SubPks THEN AckOf(r.pk) ELSE ""
                    IN [cl |-> Emit(p.cl, RecvEvent(k, net.conn, r)),
                        b |-> [p.b EXCEPT !.k = k,
                                          !.infl = IF r.pk = "PUBLISH" /\ QosOf(r.op) > 0 THEN @ \cup {r.pid} ELSE @,
@@ -318,11 +323,11 @@ BrokerAck(i) ==
             ks == brk.ks + 1
             pd == "a" \o ToString(ks)
             ev == [e |-> "b_send", c |-> net.conn, k |-> ks, type |-> x.kind, pid |-> x.pid, rc |-> rc, dig |-> pd,
-                   codes |-> IF x.kind = "SUBACK" THEN <<rc>> ELSE << >>, ans |-> x.k]
+                   codes |-> IF x.kind \in SubAcks2 THEN <<rc>> ELSE << >>, ans |-> x.k]
         IN /\ Commit(Emit(c, ev), [op |-> "ack", i |-> i - 1, rc |-> rc])
            /\ brk' = [brk EXCEPT !.ks = ks, !.obl = SubSeq(@, 1, i - 1) \o SubSeq(@, i + 1, Len(@)),
                                  !.infl = IF x.kind \in {"PUBACK", "PUBCOMP"} \/ (x.kind = "PUBREC" /\ rc >= 128) THEN @ \ {x.pid} ELSE @,
-                                 !.acked = IF x.kind \in {"PUBACK", "PUBCOMP", "SUBACK"} \/ (x.kind = "PUBREC" /\ rc >= 128) THEN @ \cup {x.op} ELSE @]
+                                 !.acked = IF x.kind \in ({"PUBACK", "PUBCOMP"} \cup SubAcks2) \/ (x.kind = "PUBREC" /\ rc >= 128) THEN @ \cup {x.op} ELSE @]
            /\ net' = [net EXCEPT !.b2c = Append(@, [code |-> x.kind, pid |-> x.pid, rc |-> rc, pdig |-> pd])]
 
 \* assemble_op hands one packet to replies::dispatch
